@@ -4,6 +4,7 @@ import json, os, sys
 HERE = os.path.dirname(os.path.abspath(__file__))
 sys.path.insert(0, HERE)
 import registry, manifest_meta as mm
+ALL = [json.loads(l)['id'] for l in open(os.path.join(os.path.dirname(HERE), 'properties.jsonl'))]
 checks = []
 for pid in sorted(registry.PROPS):
     meta = mm.CHECKS[pid]
@@ -27,7 +28,7 @@ m = dict(
                   kind_free_text="contract-based deductive verification: Verus (Z3) on function text extracted mechanically from /repo on every run; Kani/CBMC function harnesses on the real source files for loop-free functions; native twin validation only for assumed contracts")],
     checks=checks,
     notes=mm.NOTES,
-    not_applicable=mm.NOT_APPLICABLE,
+    not_applicable=mm.NOT_APPLICABLE + [dict(property_id=l, reason='check not built yet (planned, DESIGN.md §8); not claimed in this commit') for l in ALL if l not in registry.PROPS and l not in {x['property_id'] for x in mm.NOT_APPLICABLE}],
 )
 json.dump(m, open(os.path.join(os.path.dirname(HERE), "MANIFEST.json"), "w"), indent=1)
 print("MANIFEST.json: %d checks, %d not applicable" % (len(checks), len(mm.NOT_APPLICABLE)))
